@@ -163,51 +163,43 @@ def _statistics(ctx, cfg):
     ctx.stub("nn_state.sample", "statistics_from_samples", "_update_statistics")
     box = {}
 
-    def inv(env, i, n):
-        w, accs = box["w"], box["accs"]
-        acc = accs["obs"]
-        entry = not isinstance(i, A.Sym) and i == 0
-        if entry:
-            # before the first draw: the prepared start (None / the caller's tensor if overwrite / a clone of it)
-            ch, user, ow = env["chains"], box.get("user"), box.get("overwrite")
-            if user is None:
-                start_ok = ch is None
-            elif ow:
-                start_ok = ch is user
-            else:
-                start_ok = isinstance(ch, Chain) and ch.cloned_from is user and ch is not user
-            w.current = ch
-            chain_clause = ("start: caller's chains are cloned unless overwrite=True; default start is None", start_ok)
-        else:
-            chain_clause = ("chains is the object the next draw must continue", env["chains"] is w.current)
-        out = [("running count == i * num_chains", env["running_length"] == i * env["num_chains"]),
-               ("draws so far == i", w.draws == i),
-               ("running triple is the accumulator of chunks 0..i-1", (env["running_mean"] is acc.mean and env["running_variance"] is acc.var)
-                or (entry and env["running_mean"] == 0.0 and env["running_variance"] == 0.0)),
-               ("accumulator has merged i chunks", acc.merged == i),
-               ("accumulator count", acc.len == env["running_length"]),
-               chain_clause,
-               ("number of chains is what the start state dictates", env["num_chains"] == w.nc),
-               ("running variance >= 0", acc.var >= 0),
-               ("empty accumulator is (0, 0)", IMPLIES(i == 0, AND(acc.mean == 0, acc.var == 0)) if isinstance(i, A.Sym) else True)]
-        return out
+    def roles():
+        w, acc = box["w"], box["accs"]["obs"]
+        return {"mean": acc.mean, "var": acc.var, "len": acc.len, "chain": w.current}
 
-    def modifies(env):
-        pass
-
-    def havoc_locals(env, i, n):
-        w, accs = box["w"], box["accs"]
+    def fresh(i, n):
+        w = box["w"]
         w.draws = i
-        ch = Chain(env["num_chains"], "chain@i")
+        ch = Chain(w.nc, "chain@i")
         w.current = ch
         m, v = vc.fresh_real("rm"), vc.fresh_real("rv")
-        a = Acc(m, v, i * env["num_chains"], i)
+        a = Acc(m, v, i * w.nc, i)
         a.pending = None
-        accs["obs"] = a
-        return {"running_mean": m, "running_variance": v, "running_length": i * env["num_chains"], "chains": ch,
-                "i": i}
+        box["accs"]["obs"] = a
+        return {"mean": m, "var": v, "len": i * w.nc, "chain": ch}
 
-    spec = A.LoopSpec(inv, modifies, havoc_locals, "draw loop")
+    def entry(vals):
+        w = box["w"]
+        ch, user, ow = vals.get("chain"), box.get("user"), box.get("overwrite")
+        if user is None:
+            start_ok = ch is None
+        elif ow:
+            start_ok = ch is user
+        else:
+            start_ok = isinstance(ch, Chain) and ch.cloned_from is user and ch is not user
+        w.current = ch
+        return [("running mean, variance and count start at 0", vals.get("mean") == 0.0 and vals.get("var") == 0.0 and vals.get("len") == 0),
+                ("start: caller's chains are cloned unless overwrite=True; default start is None", start_ok)]
+
+    def clauses(i, n):
+        w, acc = box["w"], box["accs"]["obs"]
+        return [("draws so far == i", w.draws == i),
+                ("accumulator has merged i chunks", acc.merged == i),
+                ("running count == i * num_chains", acc.len == i * w.nc),
+                ("running variance >= 0", acc.var >= 0),
+                ("empty accumulator is (0, 0)", IMPLIES(i == 0, AND(acc.mean == 0, acc.var == 0)) if isinstance(i, A.Sym) else True)]
+    spec = A.RoleLoopSpec(roles, fresh, entry, clauses, "draw loop", value_roles=("len",))
+    spec.optional_roles = ("chain",)
     f, rew = A.load(ObservableBase.statistics, {0: spec}, vc, name="ObservableBase.statistics")
     ctx.rewritten = rew
 
@@ -253,6 +245,11 @@ def _statistics(ctx, cfg):
             vc.check("post/all chunks merged", acc.merged == T)
             se = res["std_error"]
             vc.check("post/std_error^2 * num_samples == variance", se * se * res["num_samples"] == res["variance"])
+        spec.template = None
+        vc.discover(run)
+        ctx.holds("statistics/loop-carried state found (mean, variance, count, chains) [%s]" % form,
+                  spec.template is not None and {"mean", "var", "len", "chain"} <= {r for t in spec.template.values() for r, _v, _p in A._tmpl_walk(t, None)},
+                  str(spec.template))
         vc.explore(run, "statistics " + form)
     vc.flush()
     ctx.holds("exploration/paths > 0", vc.paths > 0)
@@ -284,38 +281,46 @@ def _system(ctx, cfg):
     box = {}
     names = ["A", "B"]
 
-    def inv(env, i, n):
+    def roles():
         w, accs = box["w"], box["accs"]
-        out = [("total count == i * num_chains", env["total_samples"] == i * env["num_chains"]),
-               ("draws so far == i", w.draws == i),
-               ("chains is the object the next draw must continue", env["chains"] is w.current)]
+        r = {"len": accs[names[0]].len, "chain": w.current}
         for nm in names:
-            acc = accs[nm]
-            out.append(("running mean/variance of %s are its accumulator" % nm,
-                        (env["means"][nm] is acc.mean and env["variances"][nm] is acc.var) or
-                        (not isinstance(i, A.Sym) and i == 0 and env["means"][nm] == 0.0 and env["variances"][nm] == 0.0)))
-            out.append(("accumulator of %s has merged i chunks" % nm, acc.merged == i))
-            out.append(("accumulator count of %s" % nm, acc.len == env["total_samples"]))
-            out.append(("running variance of %s >= 0" % nm, acc.var >= 0))
-            out.append(("empty accumulator of %s is (0, 0)" % nm, IMPLIES(i == 0, AND(acc.mean == 0, acc.var == 0)) if isinstance(i, A.Sym) else True))
-        return out
+            r["mean:" + nm], r["var:" + nm] = accs[nm].mean, accs[nm].var
+        return r
 
-    def havoc_locals(env, i, n):
+    def fresh(i, n):
         w, accs = box["w"], box["accs"]
         w.draws = i
-        ch = Chain(env["num_chains"], "chain@i")
+        ch = Chain(w.nc, "chain@i")
         w.current = ch
-        means, variances = env["means"], env["variances"]
+        tok = {"len": i * w.nc, "chain": ch}
         for nm in names:
             m, v = vc.fresh_real("rm" + nm), vc.fresh_real("rv" + nm)
-            a = Acc(m, v, i * env["num_chains"], i)
+            a = Acc(m, v, i * w.nc, i)
             a.pending = None
             accs[nm] = a
-            means[nm] = m              # the dicts are mutated in place by the loop body: havoc their entries
-            variances[nm] = v
-        return {"total_samples": i * env["num_chains"], "chains": ch, "i": i}
+            tok["mean:" + nm], tok["var:" + nm] = m, v
+        return tok
 
-    spec = A.LoopSpec(inv, None, havoc_locals, "draw loop")
+    def entry(vals):
+        w = box["w"]
+        w.current = vals.get("chain")
+        ok = vals.get("len") == 0 and all(vals.get("mean:" + nm) == 0.0 and vals.get("var:" + nm) == 0.0 for nm in names)
+        return [("every observable's running mean / variance and the shared count start at 0", ok),
+                ("default start is None", vals.get("chain") is None)]
+
+    def clauses(i, n):
+        w, accs = box["w"], box["accs"]
+        out = [("draws so far == i", w.draws == i)]
+        for nm in names:
+            acc = accs[nm]
+            out += [("accumulator of %s has merged i chunks" % nm, acc.merged == i),
+                    ("count of %s == i * num_chains" % nm, acc.len == i * w.nc),
+                    ("running variance of %s >= 0" % nm, acc.var >= 0),
+                    ("empty accumulator of %s is (0, 0)" % nm, IMPLIES(i == 0, AND(acc.mean == 0, acc.var == 0)) if isinstance(i, A.Sym) else True)]
+        return out
+    spec = A.RoleLoopSpec(roles, fresh, entry, clauses, "draw loop", value_roles=("len",))
+    spec.optional_roles = ("chain",)
     f, rew = A.load(System.statistics, {0: spec}, vc, name="System.statistics")
     ctx.rewritten = rew
 
@@ -358,6 +363,9 @@ def _system(ctx, cfg):
             vc.check("post/%s: std_error^2 * num_samples == variance" % nm, se * se * res[nm]["num_samples"] == res[nm]["variance"])
         vc.check("post/number of draws == ceil(ns / nc): one chain shared by all observables", w.draws == T)
         vc.check("post/result has exactly the observables' names", sorted(res.keys()) == names)
+    vc.discover(run)
+    ctx.holds("System.statistics/loop-carried state found (per-observable mean / variance, count, chains)",
+              spec.template is not None and {"len", "chain", "mean:A", "var:B"} <= {r for t in spec.template.values() for r, _v, _p in A._tmpl_walk(t, None)}, str(spec.template))
     vc.explore(run, "System.statistics")
     vc.flush()
     ctx.holds("exploration/paths > 0", vc.paths > 0)
